@@ -69,6 +69,7 @@ struct Case {
   int n = 4;
   long p[4] = {0, 0, 0, 0};
   int corr = 0, upd = 1, tol = 1, tight = 0, k = 1, mf = 0;
+  int it = 50;  // iter_max (50 = the solver default; only the reuse histories use other values)
 };
 
 static std::string cstr(const Case &c) {
@@ -76,6 +77,7 @@ static std::string cstr(const Case &c) {
   s << "fam=" << c.fam << ";n=" << c.n << ";p=" << c.p[0] << "," << c.p[1] << "," << c.p[2] << "," << c.p[3]
     << ";corr=" << CORR[c.corr] << ";upd=" << UPD[c.upd] << ";tol=" << TOL[c.tol] << ";tight=" << c.tight
     << ";k=" << c.k << ";mf=" << c.mf;
+  if (c.it != 50) s << ";it=" << c.it;
   return s.str();
 }
 static int find(const char *const *tab, int n, const std::string &s) {
@@ -96,6 +98,7 @@ static Case cparse(const std::string &s) {
   c.tight = atoi(m.at("tight").c_str());
   c.k = atoi(m.at("k").c_str());
   c.mf = atoi(m.at("mf").c_str());
+  if (m.count("it")) c.it = atoi(m.at("it").c_str());
   return c;
 }
 
@@ -482,15 +485,19 @@ struct Run {
   VectorXd th;
   MatrixXd V;
 };
-static Run solve_real(const MatrixXd &H, bool ham, const Case &c, bool matrix_free, std::vector<MatrixXd> *rec, bool trace = false) {
-  Run r;
-  Logger log;
-  DavidsonSolver DS(log);
+// options exactly as a caller sets them through the public setters; max_search_space: 1 = set 3*neigen, 0 = leave
+// alone, -1 = reset to 0 (the member default)
+static void apply_options(DavidsonSolver &DS, const Case &c, bool ham, int mss_mode) {
   DS.set_correction(CORR[c.corr]);
   DS.set_size_update(UPD[c.upd]);
   DS.set_tolerance(TOL[c.tol]);
-  if (c.tight) DS.set_max_search_space(3 * c.k);
-  if (ham) DS.set_matrix_type("HAM");
+  DS.set_iter_max(c.it);
+  DS.set_matrix_type(ham ? "HAM" : "SYMM");
+  if (mss_mode > 0) DS.set_max_search_space(3 * c.k);
+  if (mss_mode < 0) DS.set_max_search_space(0);
+}
+static Run solve_on(DavidsonSolver &DS, const MatrixXd &H, const Case &c, bool matrix_free, std::vector<MatrixXd> *rec) {
+  Run r;
   try {
     if (matrix_free) {
       DenseOp op(H, rec);
@@ -502,11 +509,6 @@ static Run solve_real(const MatrixXd &H, bool ham, const Case &c, bool matrix_fr
     r.threw = e.what();
     if (r.threw.empty()) r.threw = "exception";
   }
-  if (trace) {
-    std::cout << log << std::endl;
-    std::cout << "H=\n" << H << "\nthrew=" << r.threw << " info=" << DS.info() << " theta=" << DS.eigenvalues().transpose() << "\nV=\n"
-              << DS.eigenvectors() << std::endl;
-  }
   r.iters = DS.num_iterations();
   if (!r.threw.empty()) {
     r.status = "X";
@@ -517,8 +519,24 @@ static Run solve_real(const MatrixXd &H, bool ham, const Case &c, bool matrix_fr
   r.V = DS.eigenvectors();
   return r;
 }
+static Run solve_real(const MatrixXd &H, bool ham, const Case &c, bool matrix_free, std::vector<MatrixXd> *rec, bool trace = false) {
+  Logger log;
+  DavidsonSolver DS(log);
+  apply_options(DS, c, ham, c.tight ? 1 : 0);
+  Run r = solve_on(DS, H, c, matrix_free, rec);
+  if (trace) {
+    std::cout << log << std::endl;
+    std::cout << "H=\n" << H << "\nthrew=" << r.threw << " info=" << DS.info() << " theta=" << DS.eigenvalues().transpose() << "\nV=\n"
+              << DS.eigenvectors() << std::endl;
+  }
+  return r;
+}
 
-static bsx::Outcome run_case(const Case &c, bool verbose = false) {
+static bsx::Outcome run_history(const Case &c, bool verbose);
+
+// `given`: evaluate the per-solve oracle on this result (obtained on a reused solver object) instead of solving
+static bsx::Outcome run_case(const Case &c, bool verbose = false, const Run *given = nullptr) {
+  if (c.fam == 'r') return run_history(c, verbose);
   bsx::Outcome o;
   std::string cas = cstr(c);
   auto failwith = [&](const std::string &key, const std::string &what) {
@@ -537,7 +555,7 @@ static bsx::Outcome run_case(const Case &c, bool verbose = false) {
   const Index k = c.k;
   const double tol = TOLV[c.tol];
   const double scale = std::max(1.0, H.cwiseAbs().maxCoeff());
-  const bool dd = !ham && strictly_dd(H);
+  const bool dd = !ham && c.it == 50 && strictly_dd(H);  // "within the iteration limit" = the default limit
 
   // ---- reference
   VectorXd ref;  // SYMM: all eigenvalues ascending; HAM: positive eigenvalues ascending
@@ -620,7 +638,7 @@ static bsx::Outcome run_case(const Case &c, bool verbose = false) {
 
   // ---- the real solver
   std::vector<MatrixXd> traj;
-  Run r = solve_real(H, ham, c, c.mf != 0, c.mf ? &traj : nullptr, getenv("C09_TRACE") != nullptr);
+  Run r = given ? *given : solve_real(H, ham, c, c.mf != 0, c.mf ? &traj : nullptr, getenv("C09_TRACE") != nullptr);
   if (getenv("C09_TRACE")) {
     std::vector<MatrixXd> tr;
     solve_real(H, ham, c, true, &tr);
@@ -794,7 +812,8 @@ static bsx::Outcome run_case(const Case &c, bool verbose = false) {
   {
     std::vector<MatrixXd> tr = traj;
     std::string why;
-    if (!c.mf) {  // dense run: the twin through the recording operator must reproduce it
+    if (!c.mf || given) {  // dense (or reused-object) run: the twin through the recording operator must reproduce it
+      tr.clear();
       Run t = solve_real(H, ham, c, true, &tr);
       if (t.status != "S" || t.iters != iters || t.th.size() != k || (t.th - th).cwiseAbs().maxCoeff() > 1e-9 * scale)
         why = "recording twin run differs from the dense run";
@@ -925,6 +944,98 @@ static bsx::Outcome run_case(const Case &c, bool verbose = false) {
   }
 }
 
+// ------------------------------------------------------------------ solver-object reuse histories
+// One DavidsonSolver object, several solve() calls; options are set through the public setters before every solve
+// exactly as a caller would (set_max_search_space only when the element asks for a limit, or to reset a limit an
+// earlier element of the history has set).  After EVERY solve: (b) status, iteration count, eigenvalues and
+// eigenvectors must equal those of a FRESH solver given the same matrix and options (the start vectors are
+// deterministic, so 1e-12), then (a) the usual per-solve oracle on the reused object's result.
+static const int NELEM = 9;
+static Case element(int e) {
+  static const char *tab[NELEM] = {
+      "fam=b;n=16;p=0,0,0,0;corr=DPR;upd=safe;tol=normal;tight=0;k=2;mf=0",          // easy, diagonally dominant: Success
+      "fam=b;n=16;p=0,0,0,0;corr=OLSEN;upd=max;tol=strict;tight=0;k=2;mf=1",         // same matrix, OLSEN, matrix-free
+      "fam=a;n=40;p=0,0,0,0;corr=DPR;upd=safe;tol=lapack;tight=0;k=3;mf=0;it=2",     // dense Q, iter_max 2: NoConvergence
+      "fam=b;n=40;p=3,0,1,0;corr=DPR;upd=safe;tol=normal;tight=0;k=3;mf=0",          // other size and neigen: Success
+      "fam=b;n=8;p=0,0,0,0;corr=DPR;upd=safe;tol=normal;tight=0;k=1;mf=0",           // small n (search space clipped to 5)
+      "fam=d;n=16;p=2,0,0,0;corr=DPR;upd=safe;tol=normal;tight=0;k=2;mf=1",          // HAM mode: Success
+      "fam=d;n=40;p=2,0,0,1;corr=OLSEN;upd=safe;tol=lapack;tight=0;k=3;mf=0;it=1",   // HAM, iter_max 1: NoConvergence
+      "fam=b;n=40;p=0,0,0,0;corr=OLSEN;upd=min;tol=loose;tight=1;k=3;mf=0",          // explicit search-space limit 3*neigen
+      "fam=a;n=16;p=4,1,0,0;corr=DPR;upd=safe;tol=lapack;tight=0;k=4;mf=0;it=3",     // iter_max 3: NoConvergence
+  };
+  return cparse(tab[e]);
+}
+static bsx::Outcome run_history(const Case &hc, bool verbose) {
+  bsx::Outcome o;
+  const int len = int(hc.p[1]);
+  std::vector<int> hist;
+  {
+    long code = hc.p[0];
+    for (int i = 0; i < len; i++) { hist.push_back(int(code % NELEM)); code /= NELEM; }
+  }
+  std::string cas = cstr(hc);
+  std::string hs;
+  for (int e : hist) hs += (hs.empty() ? "" : " -> ") + std::string("E") + std::to_string(e);
+  auto failwith = [&](const std::string &key, const std::string &what) {
+    o.ok = false;
+    o.key = key;
+    o.what = what + "  [history " + hs + "; " + cas + "]";
+    return o;
+  };
+  Logger log;
+  DavidsonSolver DS(log);
+  bool limit_was_set = false;
+  Index stale_mss = 0;  // model of the only option the caller did not touch: the max_search_space_ member
+  std::string statuses;
+  for (int step = 0; step < len; step++) {
+    Case c = element(hist[size_t(step)]);
+    MatrixXd H;
+    bool ham = false;
+    if (!build(c, H, ham)) return failwith("machinery-reuse-alphabet", "alphabet element is not in the space");
+    const double scale = std::max(1.0, H.cwiseAbs().maxCoeff());
+    int mss_mode = c.tight ? 1 : (limit_was_set ? -1 : 0);
+    if (mss_mode != 0) stale_mss = c.tight ? 3 * c.k : 0;
+    limit_was_set = limit_was_set || c.tight;
+    apply_options(DS, c, ham, mss_mode);
+    Run reused = solve_on(DS, H, c, c.mf != 0, nullptr);
+    Run fresh = solve_real(H, ham, c, c.mf != 0, nullptr);
+    // what the member max_search_space_ is during this solve on the reused object vs on a fresh one
+    Index eff_reused = stale_mss < c.k ? 5 * c.k : stale_mss;
+    eff_reused = std::min<Index>(eff_reused, H.rows());
+    Index eff_fresh = std::min<Index>(c.tight ? 3 * c.k : 5 * c.k, H.rows());
+    stale_mss = eff_reused;
+    const std::string cls = eff_reused != eff_fresh ? "-stale-max-search-space" : "";
+    std::string at = "solve #" + std::to_string(step + 1) + " (" + cstr(c) + ") on the reused object";
+    if (eff_reused != eff_fresh)
+      at += " [max_search_space_ left at " + std::to_string(eff_reused) + " by an earlier solve, a fresh solver uses " + std::to_string(eff_fresh) + "]";
+    auto sname = [](const Run &r) { return r.status == "S" ? std::string("Success") : r.status == "N" ? std::string("NoConvergence") : "threw '" + r.threw + "'"; };
+    if (reused.status != fresh.status || reused.threw != fresh.threw)
+      return failwith("reuse-status-differs-from-fresh" + cls, at + " reports " + sname(reused) + ", a fresh solver reports " + sname(fresh));
+    if (reused.iters != fresh.iters)
+      return failwith("reuse-iterations-differ-from-fresh" + cls, at + " needs " + std::to_string(reused.iters) + " iterations, a fresh solver " + std::to_string(fresh.iters));
+    if (reused.status != "X") {
+      if (reused.th.size() != fresh.th.size() || reused.V.rows() != fresh.V.rows() || reused.V.cols() != fresh.V.cols())
+        return failwith("reuse-shape-differs-from-fresh" + cls, at + " returns " + std::to_string(reused.th.size()) + " values / " +
+                                                                     std::to_string(reused.V.rows()) + "x" + std::to_string(reused.V.cols()) + " vectors");
+      // NaN-safe comparisons
+      if (!((reused.th - fresh.th).cwiseAbs().maxCoeff() <= 1e-12 * scale))
+        return failwith("reuse-values-differ-from-fresh" + cls, at + " returns " + vecstr(reused.th) + ", a fresh solver " + vecstr(fresh.th));
+      if (!((reused.V - fresh.V).cwiseAbs().maxCoeff() <= 1e-12))
+        return failwith("reuse-vectors-differ-from-fresh" + cls, at + " returns eigenvectors that differ from a fresh solver's by " +
+                                                                      bsx::fmt((reused.V - fresh.V).cwiseAbs().maxCoeff()));
+    }
+    // (a) the per-solve oracle on what the reused object returned
+    bsx::Outcome po = run_case(c, false, &reused);
+    if (!po.ok) return failwith(po.key, at + ": " + po.what);
+    statuses += reused.status;
+  }
+  o.cls = bsx::fnv("r|" + statuses + "|" + std::to_string(hc.p[0]));
+  o.extra = statuses;
+  if (verbose || g_track.seen.insert("r" + statuses).second)
+    o.what = cas + " = history " + hs + " on one solver object -> " + statuses + ", every solve identical to a fresh solver and passing the per-solve oracle";
+  return o;
+}
+
 // ------------------------------------------------------------------ enumeration
 struct Block {
   std::string name;
@@ -985,6 +1096,15 @@ static std::vector<Block> blocks(const std::string &tier) {
                     setopt(c, os, int(i / NLATD1));
                     return c; }});
   };
+  {  // solver-object reuse: all ordered pairs (quick) / triples (thorough) over the 9-element alphabet
+    int len = thorough ? 3 : 2;
+    long cnt = 1;
+    for (int i = 0; i < len; i++) cnt *= NELEM;
+    bl.push_back({"r:reuse-histories", cnt, [=](long i) {
+                    Case c; c.fam = 'r'; c.n = 0; c.k = 0;
+                    c.p[0] = i; c.p[1] = len;
+                    return c; }});
+  }
   lattice_c(1);
   // complete m=2 BSE lattice, all options
   bl.push_back({"d:lattice-m2", NLATD0 * 48, [=](long i) {
@@ -1075,7 +1195,10 @@ int main(int argc, char **argv) {
       "block form (all 2x2-block integer matrices, a reduced 3x3-block lattice, dense blocks n in {16,40,120(thorough)}), only "
       "members with A+B, A-B positive definite. A distinct outcome class is (family, status Success|NoConvergence|threw, iteration "
       "count, number of flagged roots, reachable-subspace flag, diagonally-dominant flag). quick: lattices with 2 representative "
-      "option combinations (m=2 BSE lattice: all 48), thorough: all 48.";
+      "option combinations (m=2 BSE lattice: all 48), thorough: all 48. Family r = solver-object reuse: all ordered pairs (quick) / "
+      "triples (thorough) over 9 (matrix, options) elements {easy dd, OLSEN+matrix-free, iter_max 2/1/3 NoConvergence, other n and "
+      "neigen, n=8, HAM, explicit search-space limit} solved on ONE solver object with options set through the public setters; after "
+      "every solve the result must equal a fresh solver's (status, iterations, values, vectors to 1e-12) and pass the per-solve oracle.";
   R.assumptions = {
       "Eigen::SelfAdjointEigenSolver / LLT / EigenSolver are trusted as reference",
       "an exception out of solve() counts as an honest non-success (the statement does not mention exceptions)",
@@ -1111,8 +1234,9 @@ int main(int argc, char **argv) {
             R.counters[o.extra == "skip" ? "skipped_not_positive_definite" : "skipped_illconditioned_bse"]++;
             return;
           }
-          R.eval();
           Case c = decode(j * ns + a.shard);
+          R.eval(c.fam == 'r' ? c.p[1] : 1);
+          if (c.fam == 'r') R.counters["reuse_histories"]++;
           if (!o.ok) {
             R.fail(o.key, o.what, cstr(c));
             R.counters[std::string("fail_") + c.fam + "_" + o.key]++;
